@@ -21,7 +21,8 @@ CONSTANTS Fixed, MaxClauses, MsgLens
 -----------------------------------------------------------------------------
 (* A. contract *)
 Kinds == {"zhC", "zhM", "en", "def", "unk", "rwe"}
-Shapes == {"ascii", "cjk", "mixed"}
+\* "latin" = non-ASCII text without any character of the CJK block (accents, Greek/Cyrillic, symbols, emoji): English label
+Shapes == {"ascii", "cjk", "mixed", "latin"}
 HasCJK(shape) == shape \in {"cjk", "mixed"}
 LabelOfShape(shape) == IF HasCJK(shape) THEN "zh" ELSE "en"
 ShapeOfKind == [k \in {"zhC", "zhM", "en"} |-> CASE k = "zhC" -> "cjk" [] k = "zhM" -> "mixed" [] k = "en" -> "ascii"]
@@ -64,6 +65,9 @@ Sweep == <<
   Row("ints", "", "1,b", "it is not separated by \",\" num", ""),
   Row("float", "", "abc", "it is not float", ""),
   Row("re", "^x+$", "abc", "regex match is failed, pattern: ^x+$", ""),
+  Row("re", "^(x|y)+$", "abc", "regex match is failed, pattern: ^(x|y)+$", ""),     \* alternation: the pattern's own | is not the message bar
+  Row("re", "^x{1,2}$", "abc", "regex match is failed, pattern: ^x{1,2}$", ""),     \* comma protected by the quotes
+  Row("in", "'x,y'/z", "abc", "it should in ('x,y'/z)", ""),
   Row("unique", "", "a,a", "they're not unique", ""),
   Row("json", "", "abc", "it is not json", ""),
   Row("prefix", "x", "abc", "prefix is not ok", ""),
